@@ -5,6 +5,47 @@ import LPVerif.Lemmas.CoreExec
 namespace LPVerif.Prof
 open LPVerif.Core
 
+/-! ## padding (repair of F-C04b): the padded bytecode is new -/
+
+theorem findFree_ge (taken : List Blk) (base : Nat) (fuel p : Nat) : p ≤ findFree taken base p fuel := by
+  induction fuel generalizing p with
+  | zero => exact Nat.le_refl _
+  | succ k ih =>
+    unfold findFree
+    split
+    · exact Nat.le_trans (Nat.le_succ p) (ih (p + 1))
+    · exact Nat.le_refl _
+
+theorem le_maxPad (taken : List Blk) (b : Blk) (h : b ∈ taken) : b.pad ≤ maxPad taken := by
+  induction taken with
+  | nil => cases h
+  | cons a r ih =>
+    unfold maxPad
+    cases h with
+    | head => exact Nat.le_max_left _ _
+    | tail _ h' => exact Nat.le_trans (ih h') (Nat.le_max_right _ _)
+
+/-- with enough fuel the loop ends on a bytecode that is not registered -/
+theorem findFree_fresh (taken : List Blk) (base : Nat) (fuel p : Nat) (hf : maxPad taken < p + fuel) :
+    (⟨base, findFree taken base p fuel⟩ : Blk) ∉ taken := by
+  induction fuel generalizing p with
+  | zero =>
+    intro h
+    have := le_maxPad taken _ h
+    simp only [findFree] at this
+    omega
+  | succ k ih =>
+    unfold findFree
+    split
+    · exact ih (p + 1) (by omega)
+    · assumption
+
+/-- **a duplicate's padded bytecode differs from every registered bytecode** -/
+theorem padStep_fresh (dupes : List (Blk × Nat)) (taken : List Blk) (code : Code) (n : Nat)
+    (h : alookup code.blk dupes = some n) : (padStep dupes taken code).1.blk ∉ taken := by
+  simp only [padStep, h]
+  exact findFree_fresh taken _ _ _ (by omega)
+
 /-! ## the entries of one label -/
 
 theorem insertSorted_perm (x : Int × Nat × Int) (l : List (Int × Nat × Int)) : (insertSorted x l).Perm (x :: l) := by
